@@ -3,8 +3,10 @@
 //!   vh gen <stream> --seed S --cases N      → op lines on stdout
 //!   vh run                                   → reads op lines on stdin, executes each against
 //!                                              the real implementation, one output line per op
+mod algo;
 mod c15;
 mod exec;
+mod hnsw;
 mod lpg;
 mod ops;
 mod rdf;
@@ -47,6 +49,8 @@ fn main() {
                 "exec" => exec::generate(seed, cases, &mut out),
                 "lpg" => lpg::generate(seed, cases, &mut out),
                 "sess" => sess::generate(seed, cases, &mut out),
+                "algo" => algo::generate(seed, cases, &mut out),
+                "hnsw" => hnsw::generate(seed, cases, &mut out),
                 "wal" => wal::generate(seed, cases, args.iter().any(|a| a == "--thorough"), &mut out),
                 _ => {
                     eprintln!("unknown stream {stream}");
@@ -90,6 +94,8 @@ fn main() {
                     Some("exec") => exec::run(&toks[1..]),
                     Some("lpg") => lpg::run(&mut lpgst, &toks[1..]),
                     Some("sess") => sess::run(&mut sessst, &toks[1..]),
+                    Some("algo") => algo::run(&toks[1..]),
+                    Some("hnsw") => hnsw::run(&toks[1..]),
                     _ => "bad-op".to_string(),
                 };
                 writeln!(w, "{}", res).unwrap();
